@@ -3,7 +3,7 @@ Static differential (C15-C20): verification-side job classes with a chosen hash 
 harness controls, and in any case records, every set-iteration order), tree specs <-> objects,
 the encoding of the *current object state* for the Lean driver, generators, reference oracles.
 """
-import io, itertools, contextlib, random, sys
+import io, itertools, contextlib, random, sys, warnings
 from aj_common import REPO
 sys.path.insert(0, REPO)
 from asynciojobs import AbstractJob, Scheduler, PureScheduler, Sequence   # noqa: E402
@@ -101,11 +101,49 @@ def build(spec):
                 objs[j] = SSched(*members, jid=j, rank=rank.get(j, j), verbose=vb, **kw)
         else:
             objs[j] = SJob(j, rank.get(j, j), **kw)
+    late = {tuple(e) for e in spec.get("late_req", [])}
     for j in range(n):
         for r in spec["req"].get(j, []):
-            if hasattr(objs[j], "required"):
+            if hasattr(objs[j], "required") and (j, r) not in late:
                 objs[j].required.add(objs[r])     # raw edge (the API refuses self-loops)
+    if spec.get("pre"):
+        # a history before the observed call: the tree is inspected / run, THEN the edges of `late_req` are added.
+        # `spec` describes the final graph; whatever the history left on the objects (ids, marks, back-links, tasks)
+        # must not show in what is observed afterwards
+        top = objs[0]
+        for op in spec["pre"]:
+            try:
+                with contextlib.redirect_stdout(io.StringIO()), warnings.catch_warnings():
+                    warnings.simplefilter("ignore")
+                    if op == "list":
+                        top.list()
+                    elif op == "list_safe":
+                        top.list_safe()
+                    elif op == "dot":
+                        top.dot_format()
+                    elif op == "check":
+                        top.check_cycles()
+                    elif op == "exit":
+                        for o in objs:
+                            if isinstance(o, PureScheduler):
+                                list(o.exit_jobs())
+                    elif op == "run":
+                        top.run()
+            except Exception:           # noqa
+                pass
+    for j, r in sorted(late):
+        if j < n and r < n and r in spec["req"].get(j, []) and hasattr(objs[j], "required"):
+            objs[j].required.add(objs[r])
     return objs
+
+
+def with_history(spec, rng):
+    """the same final tree, reached through a history (inspection calls, possibly a run, then some of the edges)"""
+    spec = dict(spec)
+    edges = [(j, r) for j, rs in spec.get("req", {}).items() for r in rs]
+    spec["late_req"] = [list(e) for e in edges if rng.random() < 0.5]
+    spec["pre"] = rng.sample(["list", "list_safe", "dot", "check", "exit", "run"], rng.randint(1, 3))
+    return spec
 
 
 def enc_nats(l):
